@@ -431,7 +431,7 @@ def unit_create_class_and_check_row():
                         raises={"InterfaceError": [Clause(lambda ex, st: Sym(BOOL, z3.Not(st.ghost["map"].has(key(ex, st)))), "unknown-type-refused", props=["C09", "C20"])]},
                         expect=["return", "InterfaceError"], n_loops=0, modifies=[], raises_only_props=["C09", "C10"]),
                     "callees": {"strmethod:split": m_split_last, "_tools.human_readable_list": ModelContract(m_opaque_str)}, "label": "_create_class",
-                    "assumptions": ["qualifier.split('.')[-1] is the abstract 'last dotted part' of the qualifier; the class map is an arbitrary dict (how it is filled - __subclasses__, import_plugins - is reflection: bounded stand-in in C20)"]})
+                    "assumptions": ["qualifier.split('.')[-1] is the abstract 'last dotted part' of the qualifier; the class map is an arbitrary dict here; what it holds is the contract of Cid._create_name_to_class_map (every subclass under its plain name, a name borne by one class resolves to it), and which classes exist (__subclasses__, import_plugins) is reflection: bounded stand-ins in C20"]})
         return out
     return ProofUnit("interface.Cid._create_class", "_create_class: name resolution identical for built-ins and plug-ins", ["C20", "C09"], make, None)
 
@@ -715,7 +715,7 @@ def unit_cid_init():
                 raises={"InterfaceError": [], "DataFormatError": []} if with_path else {}, expect=["return"] + (["InterfaceError", "DataFormatError"] if with_path else []), raises_only_props=["C09", "C10"])
         return {"contract": c, "label": "with path" if with_path else "without path",
                 "callees": {"ref:Cid._create_name_to_class_map": m_class_map, "interface.Cid._create_name_to_class_map": ModelContract(m_class_map), "rowio.auto_rows": ModelContract(m_auto_rows), "ref:Cid.read": m_read, "ref:Cid.set_location_to_caller": m_locate},
-                "assumptions": ["Cid.read / rowio.auto_rows are used through their verified contracts; _create_name_to_class_map is abstract here (bounded: C20.protocol resolves real plug-in classes)"]}
+                "assumptions": ["Cid.read / rowio.auto_rows are used through their verified contracts; _create_name_to_class_map is used through its verified contract's interface (a map built from the subclasses of the base class it is given; unit interface.Cid._create_name_to_class_map)"]}
     def make(ctx): return [mk(False), mk(True)]
     return ProofUnit("interface.Cid.__init__", "Cid.__init__: empty definition, class maps from the two base classes, optional read from a path", ["C09", "C08", "C17", "C20", "C10"], make, None)
 
